@@ -45,7 +45,7 @@ pub fn case_text(verb: &str, c: &Case, calls: &super::c05::Calls) -> String {
 
 fn c_text(c: &COut) -> String {
     match c {
-        COut::Refused(st, e) => format!("refused at {st}: {e:?}"),
+        COut::Refused(st, e, _) => format!("refused at {st}: {e:?}"),
         COut::Eval(e, ..) => format!("{e:?}"),
     }
 }
@@ -113,7 +113,7 @@ pub fn one(ctx: &mut Ctx, c: &Case) -> bool {
     let has_fail = crate::codec::has_fail(&red);
     let mut compared = false;
     match (&run.outcome, &cres) {
-        (_, COut::Refused("decode", SimplicityErr::FailCode)) if has_fail => ctx.count("excluded:c-refuses-fail-node"),
+        (_, COut::Refused("decode", SimplicityErr::FailCode, _)) if has_fail => ctx.count("excluded:c-refuses-fail-node"),
         (_, COut::Eval(SimplicityErr::ExecMemory, ..)) | (_, COut::Eval(SimplicityErr::ExecBudget, ..)) => ctx.count("excluded:c-limit"),
         (_, COut::Refused(..)) => ctx.fail("c-pipeline-refuses", &line, &format!("libsimplicity: {}; program {} witness {}", c_text(&cres), gen::hex(&pb), gen::hex(&wb))),
         (Outcome::Other(e), _) => ctx.fail("rust-other-error", &line, &format!("BitMachine: {e}; libsimplicity: {}", c_text(&cres))),
